@@ -323,6 +323,13 @@ class BuiltinMixin:
         return static("super", (st.env["self"], self.cur_cls))
 
     def b_sum(self, st, args, kw, node):
+        """sum of a list of ints = the prefix-sum functional at the list's length"""
+        if len(args) == 1 and not kw and args[0].t[0] == "list" and args[0].t[1] == ("int",):
+            f, _ = self.fsum_fn()
+            self.fsum_axioms(st)
+            return V(("int",), f(st.seq_elems(args[0]), st.seq_len(args[0])))
+        if len(args) == 1 and is_static(args[0], "emptylist"):
+            return V(("int",), z3.IntVal(0))
         raise Unsupported("sum()")
 
     def b_sorted(self, st, args, kw, node):
